@@ -1,3 +1,4 @@
 import ShootVerif.Drive.Loop
+import ShootVerif.Drive.Mapper
 open ShootVerif.Drive
-def main : IO Unit := runDriver []
+def main : IO Unit := runDriver [("map", mapCase)]
